@@ -228,7 +228,7 @@ fn check(c: &Case) -> CaseResult {
 
 // ---- exhaustive small scope ----------------------------------------------------------------
 
-fn small_layout(internal: u8, depth: u8) -> Layout {
+pub fn small_layout(internal: u8, depth: u8) -> Layout {
     use crate::model::content::ContentSpec;
     use crate::spec::writer::TEnt;
     Layout {
